@@ -1260,6 +1260,14 @@ def r9_registered_routes_survive_the_builders(ctx):
                 hops += 1
             router_kept = not any(kind == "assign" and node["pl"]["p"] and isinstance(node["pl"]["p"][0], dict) and node["pl"]["p"][0].get("n") == "router"
                                   for ds_ in f.defs().values() for dbb, kind, node in ds_ if dbb in f.reachable(0))
+            # `Self { tag_config, ..self }`: a new aggregate whose router is the receiver's
+            if l != 1:
+                aggs = [st2 for dbb, kind, st2 in f.defs().get(l, []) if kind == "assign" and not st2["pl"]["p"] and st2["rv"]["rv"] == "agg" and st2["rv"].get("adt") == "api_description::ApiDescription"
+                        and dbb in f.reachable(0)]
+                if len(aggs) == 1 and "router" in (aggs[0]["rv"].get("fields") or []):
+                    rp = access_path(f, aggs[0]["rv"]["ops"][aggs[0]["rv"]["fields"].index("router")], VALUE_PRESERVING)
+                    if rp.kind() == "param" and rp.root_local() == 1 and rp.path == ["router"]:
+                        l = 1
             ok = l == 1 and router_kept
             ctx.check(R, "builder-returns-its-receiver:%s" % k.rsplit("::", 1)[-1], ok, "%s returns %s (must be `self`, with only fields other than `router` assigned)" % (
                 k.rsplit("::", 1)[-1], "its receiver" if l == 1 else "a value that is not its receiver (%r)" % p), f)
@@ -1585,7 +1593,7 @@ SELFTEST = [
                 "                            String::from(\"no route found (no path in router)\"),\n                        )\n                    })?)\n                }")],
      "why": "behaviour-preserving: the literal arm reports its own miss with `?` (same 404) instead of leaving it to the ok_or_else behind the match"},
 ]
-LEVEL_TEXT += " Also (R8 = C02.R2): each trie node has one kind of outgoing edge, which the walk's per-kind arms rely on."
+LEVEL_TEXT += " Also (R8 = C02.R2): each trie node has one kind of outgoing edge, which the walk's per-kind arms rely on. Also (R9): every ApiDescription method taking the description by value hands its router on (builders return the receiver, into_router returns self.router)."
 
 
 SELFTEST += [
